@@ -572,6 +572,14 @@ def header_extent(ctx, rule='C12.header-extent'):
         t = fn.term(n.bb)
         e = ctx.du(fn).sym(t['args'][1]) if len(t['args']) > 1 else ('?',)
         ln = _buffer_len(e, ctx=ctx)
+        # (`usize::try_from(pagesize).expect(..)`, `pagesize as usize`, `.into()`: the same number)
+        for _ in range(6):
+            if ln is not None and ln[0] == 'call' and ln[2] and last_seg(strip_generics(ln[1])) in ('expect', 'unwrap', 'try_from', 'try_into', 'from', 'into', 'unwrap_or_default'):
+                ln = ln[2][0]
+            elif ln is not None and ln[0] == 'un' and ln[1] in ('cast', 'Cast'):
+                ln = ln[2]
+            else:
+                break
         if ln is None:
             res.append(unresolved(rule, 'length of the header buffer written at %s (%s)' % (fn.loc(n.bb), c16._fmt(e)[:120])))
             continue
